@@ -391,6 +391,11 @@ func judgeLeftovers(o *Outcome, prop string, sc *Scenario, meta *c11Meta, res *R
 				fmt.Sprintf("run %d: %s is left in the repository after every process has terminated (cancels=%v faults=%v; endings: %s)", runIdx, n, sc.Cancels, sc.Faults, strings.Join(outputsShort(res), "; ")))
 		}
 	}
+	if hookMissing("h.acquired", "h.released", "tx.commit.swap", "tx.commit.done", "tx.rollback.done") {
+		// which created table was committed is only known from these events
+		lo.created = nil
+		o.Stats.probe("oracle-off:uncommitted-create")
+	}
 	for path, p := range lo.created {
 		name := strings.TrimPrefix(path, "$R/")
 		if _, exists := res.Final[name]; exists && !lo.commitOK[path] {
